@@ -236,6 +236,8 @@ func (c CollectionGenerator) GenerateDeltas(
 			}
 			return &e.Resource
 		})
+		// the collection lists its objects in map order
+		slices.SortBy(res, func(r *discovery.Resource) string { return r.Name })
 		toDeleted := w.ResourceNames.Copy()
 		for _, r := range res {
 			toDeleted.Delete(r.Name)
